@@ -1,0 +1,11 @@
+//go:build verif
+
+package connection
+
+// Contracts for govc (see /verif/DESIGN.md, C17). Comment-only; compiled only with -tags verif.
+// A received frame is handed on unmodified only if nobody writes into it afterwards: every frame put on recvCh is a
+// buffer made during the iteration that read it, and it is exactly the buffer the payload was read into.
+
+//@ func (*Conn).receiveRoutine
+//@   assert-at send each-frame-in-a-buffer-of-its-own: iterfresh(value) && off(value) == 0
+//@   assert-at call readNetConn#2 payload-read-into-the-frame-that-is-delivered: iterfresh(arg1) && off(arg1) == 0 && len(arg1) == size
